@@ -67,6 +67,16 @@ pub struct Menu {
     /// {0, 511, 512} are offered too
     pub report_highest: Vec<u64>,
     pub clock: bool,
+    /// offer "deliver two answers before the Daser runs again": the oldest outstanding
+    /// requests of two different blocks, answered back-to-back without settling in
+    /// between; all ordered block pairs x {ok, timeout}^2; one choice (one deviation)
+    #[serde(default)]
+    pub pairs: bool,
+    /// default choice = oldest request of the block with the most outstanding requests
+    /// (instead of the oldest request overall), so that the default path keeps the blocks
+    /// in progress level and reaches "every block has one request left"
+    #[serde(default)]
+    pub balanced_default: bool,
 }
 
 impl Menu {
@@ -80,6 +90,8 @@ impl Menu {
             prune: vec![],
             report_highest: vec![],
             clock: false,
+            pairs: false,
+            balanced_default: false,
         }
     }
 }
@@ -399,6 +411,9 @@ pub enum Op {
     AnswerOk(usize),
     /// answer it with `P2pError::RequestTimedOut`
     AnswerTimeout(usize),
+    /// answer outstanding request `.0` and then `.2` (of another block) back-to-back, the
+    /// Daser task does not run in between; `.1` / `.3`: valid sample (true) or timeout
+    AnswerPair(usize, bool, usize, bool),
     /// insert the next header above the stored head (wakes `wait_new_head`)
     InsertHead,
     /// insert the header just below the newest stored range (backward sync)
@@ -852,10 +867,27 @@ impl Sys {
         let menu = &self.cfg.menu;
         let n_out = self.outstanding_len();
         let mut ops = vec![];
+        // oldest outstanding request of every block in progress, in arrival order
+        let firsts: Vec<(u64, usize, usize)> = {
+            let hub = self.hub.lock().unwrap();
+            let mut f: Vec<(u64, usize, usize)> = vec![];
+            for (i, o) in hub.outstanding.iter().enumerate() {
+                match f.iter_mut().find(|x| x.0 == o.h) {
+                    Some(x) => x.2 += 1,
+                    None => f.push((o.h, i, 1)),
+                }
+            }
+            f
+        };
         let default = if !self.m.connected {
             Op::Reconnect
         } else if n_out > 0 {
-            Op::AnswerOk(0)
+            if menu.balanced_default {
+                let most = firsts.iter().map(|x| x.2).max().unwrap_or(0);
+                Op::AnswerOk(firsts.iter().find(|x| x.2 == most).map(|x| x.1).unwrap_or(0))
+            } else {
+                Op::AnswerOk(0)
+            }
         } else if self.can_insert_head().is_some() {
             Op::InsertHead
         } else {
@@ -880,11 +912,23 @@ impl Sys {
                 p
             };
             for p in positions {
-                if p != 0 {
+                if Op::AnswerOk(p) != default {
                     ops.push(Op::AnswerOk(p));
                 }
                 if menu.timeouts {
                     ops.push(Op::AnswerTimeout(p));
+                }
+            }
+            if menu.pairs {
+                for a in &firsts {
+                    for b in &firsts {
+                        if a.0 == b.0 {
+                            continue;
+                        }
+                        for (oa, ob) in [(true, false), (false, true), (true, true), (false, false)] {
+                            ops.push(Op::AnswerPair(a.1, oa, b.1, ob));
+                        }
+                    }
                 }
             }
         }
@@ -930,8 +974,58 @@ impl Sys {
         ops
     }
 
+    /// Delivers one answer (synchronously: a oneshot send) and tells the model.
+    fn answer(&mut self, o: Outstanding, ok: bool) -> Result<(), String> {
+        let answer = if ok {
+            Ok(self.fx.answer(&o.cid, o.h, o.row, o.col)?.as_ref().clone())
+        } else {
+            Err(P2pError::RequestTimedOut)
+        };
+        if o.respond_to.send(answer).is_ok() {
+            if let Some(i) = self.m.inprog.get(&o.h).copied() {
+                let r = &mut self.m.rounds[i];
+                if ok {
+                    r.ok.insert((o.row, o.col));
+                    // every chosen share retrieved?
+                    if let Some(ch) = &r.chosen {
+                        if r.timed_out.is_empty()
+                            && ch.len() == expected_samples(self.fx.width(o.h))
+                            && ch.iter().all(|s| r.ok.contains(s))
+                        {
+                            self.m.fully_sampled.insert(o.h);
+                        }
+                    }
+                } else {
+                    r.timed_out.insert((o.row, o.col));
+                }
+            }
+        }
+        Ok(())
+    }
+
     async fn apply(&mut self, op: &Op) -> Result<(), String> {
         match op {
+            Op::AnswerPair(i, oi, j, oj) => {
+                // take both out first (indices refer to the list as offered), then deliver
+                // them without letting any other task run in between
+                let (a, b) = {
+                    let mut hub = self.hub.lock().unwrap();
+                    if *i >= hub.outstanding.len() || *j >= hub.outstanding.len() || i == j {
+                        return Err(format!("no outstanding requests {i},{j}"));
+                    }
+                    if i > j {
+                        let a = hub.outstanding.remove(*i);
+                        let b = hub.outstanding.remove(*j);
+                        (a, b)
+                    } else {
+                        let b = hub.outstanding.remove(*j);
+                        let a = hub.outstanding.remove(*i);
+                        (a, b)
+                    }
+                };
+                self.answer(a, *oi)?;
+                self.answer(b, *oj)?;
+            }
             Op::AnswerOk(k) | Op::AnswerTimeout(k) => {
                 let o = {
                     let mut hub = self.hub.lock().unwrap();
@@ -941,30 +1035,7 @@ impl Sys {
                     hub.outstanding.remove(*k)
                 };
                 let ok = matches!(op, Op::AnswerOk(_));
-                let answer = if ok {
-                    Ok(self.fx.answer(&o.cid, o.h, o.row, o.col)?.as_ref().clone())
-                } else {
-                    Err(P2pError::RequestTimedOut)
-                };
-                if o.respond_to.send(answer).is_ok() {
-                    if let Some(i) = self.m.inprog.get(&o.h).copied() {
-                        let r = &mut self.m.rounds[i];
-                        if ok {
-                            r.ok.insert((o.row, o.col));
-                            // every chosen share retrieved?
-                            if let Some(ch) = &r.chosen {
-                                if r.timed_out.is_empty()
-                                    && ch.len() == expected_samples(self.fx.width(o.h))
-                                    && ch.iter().all(|s| r.ok.contains(s))
-                                {
-                                    self.m.fully_sampled.insert(o.h);
-                                }
-                            }
-                        } else {
-                            r.timed_out.insert((o.row, o.col));
-                        }
-                    }
-                }
+                self.answer(o, ok)?;
             }
             Op::InsertHead => {
                 let h = self.can_insert_head().ok_or("no head to insert")?;
